@@ -265,6 +265,12 @@ def chain_case(depth, ops_kind, order, use, seed):
             vals[i] = X.binop(o2, X.binop(o1, c1 * vals[i + 1], vals[j]), k)
             defs.append((i, e))
             continue
+        if ops_kind == "neg":
+            # through unary minus: a_i = -a_(i+1) + k
+            k = rnd.randrange(0, 50)
+            defs.append((i, ("bin", "+", ("un", "-", ("sym", names[i + 1])), ("num", k))))
+            vals[i] = -vals[i + 1] + k
+            continue
         if ops_kind == "add":
             op, k = rnd.choice(["+", "-"]), rnd.randrange(0, 50)
         else:
@@ -315,7 +321,8 @@ def chain_case(depth, ops_kind, order, use, seed):
 def run_shard(spec, ctx):
     part = spec["part"]
     if part == "chains":
-        for depth, kind in ((300, "add"), (30, "nonlinear"), (3, "nonlinear"), (12, "add"), (4, "dag"), (9, "dag"), (25, "dag")):
+        import itertools
+        for depth, kind in ((300, "add"), (30, "nonlinear"), (3, "nonlinear"), (12, "add"), (4, "dag"), (9, "dag"), (25, "dag"), (250, "neg"), (7, "neg")):
             for order in ("forward", "reverse", "random"):
                 for use in ("imm", "index", "branch", "blkb", "repeat", "string", "reg"):
                     for sd in range(6 if kind == "dag" else 3):
@@ -324,8 +331,19 @@ def run_shard(spec, ctx):
                                  sample=case if (depth, order, use, sd) in ((30, "random", "reg", 0), (300, "forward", "imm", 1)) else None)
                         for sig, msg in replay(case):
                             ctx.fail(sig, msg, case)
+        # products of two values that are both still pending where they are used, in every order of the definitions
+        for lines, want in ((["\t.word (qa + 1) * qb", "qa = qc + 2", "qb = qc + 3", "qc = 4"], struct.pack("<H", 49)),
+                            (["\t.word qb * (qa + 1), (qa - 1) * (qb + qa)", "qa = qc + 2", "qb = qc + 3", "qc = 4"], struct.pack("<HH", 49, 65)),
+                            (["\tnop\ntbl:\t.word tbl * scale, scale * tbl", "scale = late + 1", "late = 2", "\tnop"], struct.pack("<HHHH", 0o240, 0o1002 * 3, 0o1002 * 3, 0o240))):
+            for perm in itertools.permutations(range(len(lines))):
+                if "tbl:" in lines[0] and perm.index(0) > perm.index(3):
+                    continue      # keep 'tbl' at offset 2: the first nop stays in front
+                text = "\n".join(lines[i] for i in perm) + "\n"
+                case = oracle.expect_ok(oracle.single(text), want)
+                ctx.case(text, True, ["pending-product"], sample=text if perm == (0, 1, 2, 3) and "qa" in text else None)
+                for sig, msg in oracle.check_expect(case, prefix="product:"):
+                    ctx.fail(sig, f"{text!r}: {msg}", case)
         # definitions nothing refers to, one of them faulty: whatever the order, the build fails with the same identifier
-        import itertools
         for fault, ident in (("ratio = total / count", "arithmetic-error"), ("ratio = total % count", "arithmetic-error"), ("ratio = 1 << (count - 1)", "arithmetic-error"),
                              ("ratio = count + 19", "invalid-number"), ("ratio = total + nowhere", "undefined-symbol"), ("ratio = total + count", None)):
             lines = [fault, "count = 0", "total = 5", "\tnop", "spare = ratio + 1"]
